@@ -1165,7 +1165,7 @@ func TestVerif(t *testing.T) {
 	}
 	h := newHarness(t, r)
 	defer os.RemoveAll(h.keyRoot)
-	n := r.N(400, 10000)
+	n := r.N(800, 10000)
 	for i := 0; i < n; i++ {
 		r.Run(i, fmt.Sprintf("msg-%d", i), func(c *rep.Case) { h.runCase(c, i) })
 	}
